@@ -42,94 +42,323 @@ theorem requestPause_be {s s' : EState} {d : Bool} (h : requestPause s d = .ok s
         simp only [forBundlers_be _ (fun s b => ctl_recordInterruption s b "pause")]
         exact this
 
+@[simp] theorem be_logCall (s : EState) (c : Call) : (s.logCall c).blockingEvent = s.blockingEvent := rfl
+@[simp] theorem be_emit (s : EState) (d : Doc) : (s.emit d).blockingEvent = s.blockingEvent := rfl
+@[simp] theorem be_setDev (s : EState) (n : String) (d : DevState) : (setDev s n d).blockingEvent = s.blockingEvent := rfl
+@[simp] theorem be_nextMode (s : EState) (n op : String) : (nextMode s n op).2.blockingEvent = s.blockingEvent := rfl
+@[simp] theorem be_putBundler (s : EState) (m : Msg) (b : Bundler) : (putBundler s m b).blockingEvent = s.blockingEvent := rfl
+@[simp] theorem be_emitEvent (s : EState) (b : Bundler) (st : String) (d : List (String × Int)) (n : String) :
+    (emitEvent s b st d n).1.blockingEvent = s.blockingEvent := rfl
+@[simp] theorem be_prepareStream (s : EState) (b : Bundler) (st : String) (o : List String) :
+    (prepareStream s b st o).1.blockingEvent = s.blockingEvent := rfl
+@[simp] theorem be_closeRunDoc (s : EState) (b : Bundler) (e r : String) :
+    (closeRunDoc s b e r).1.blockingEvent = s.blockingEvent := be_of_ctl (ctl_closeRunDoc s b e r)
+@[simp] theorem be_resetCheckpointMeth (s : EState) : (resetCheckpointMeth s).blockingEvent = s.blockingEvent :=
+  be_of_ctl (ctl_resetCheckpointMeth s)
+@[simp] theorem be_stopMovables (s : EState) : (stopMovables s).blockingEvent = s.blockingEvent := be_of_ctl (ctl_stopMovables s)
+@[simp] theorem be_pauseHooks (s : EState) : (pauseHooks s).blockingEvent = s.blockingEvent := be_of_ctl (ctl_pauseHooks s)
+@[simp] theorem be_resumeHooks (s : EState) : (resumeHooks s).blockingEvent = s.blockingEvent := be_of_ctl (ctl_resumeHooks s)
+@[simp] theorem be_rewindPlan (s : EState) : (rewindPlan s).2.blockingEvent = s.blockingEvent := be_of_ctl (ctl_rewindPlan s)
+@[simp] theorem be_newStatus (s : EState) (d o m : String) (g : Option String) :
+    (newStatus s d o m g).2.blockingEvent = s.blockingEvent := rfl
+@[simp] theorem be_forBundlers_ri (s : EState) (c : String) :
+    (forBundlers s (fun s b => recordInterruption s b c)).blockingEvent = s.blockingEvent :=
+  forBundlers_be _ (fun s b => ctl_recordInterruption s b c) _
+@[simp] theorem be_forBundlers_restore (s : EState) : (forBundlers s restoreMonitors).blockingEvent = s.blockingEvent :=
+  forBundlers_be _ ctl_restoreMonitors _
+@[simp] theorem be_forBundlers_suspend (s : EState) : (forBundlers s suspendMonitors).blockingEvent = s.blockingEvent :=
+  forBundlers_be _ ctl_suspendMonitors _
+@[simp] theorem be_forBundlers_clear (s : EState) : (forBundlers s clearMonitors).blockingEvent = s.blockingEvent :=
+  forBundlers_be _ ctl_clearMonitors _
+@[simp] theorem be_forBundlers_pure (s : EState) (g : Bundler → Bundler) :
+    (forBundlers s (fun s b => (s, g b))).blockingEvent = s.blockingEvent :=
+  forBundlers_be _ (fun _ _ => rfl) _
+
+/-- close a frame goal `(f ... s ...).blockingEvent = s.blockingEvent` after unfolding `f` -/
+macro "frame_be" : tactic =>
+  `(tactic| repeat' (first | rfl | (simp; done) | split | (simp only []; (first | rfl | split))))
+
 /-- no command handler touches the blocking event -/
 theorem runCommand_be (s : EState) (m : Msg) : (runCommand s m).1.blockingEvent = s.blockingEvent := by
   unfold runCommand
   split
-  · unfold cmdOpenRun; split
-    · rfl
-    · simp only []; split <;> rfl
-  · unfold cmdCloseRun; split
-    · rfl
-    · split
-      · rfl
-      · simp only []
-        split
-        · exact be_of_ctl (by simp)
-        · exact be_of_ctl (by simp)
-  · unfold cmdCreate; split
-    · rfl
-    · split
-      · rfl
-      · split <;> rfl
-  · unfold cmdRead
-    simp only []
-    split
-    · split <;> rfl
-    · split
-      · split <;> rfl
-      · split
-        · split <;> (try split) <;> rfl
-        · split
-          · split <;> rfl
-          · split <;> rfl
-  · unfold cmdSave; split
-    · rfl
-    · split
-      · rfl
-      · split
-        · rfl
-        · simp only []; split
-          · rfl
-          · split <;> rfl
-  · unfold cmdDrop; split
-    · rfl
-    · split <;> rfl
-  · unfold cmdCheckpoint; split
-    · rfl
-    · simp only []; split <;> exact be_of_ctl (by simp)
-  · unfold cmdClearCheckpoint
-    exact forBundlers_be _ (fun _ _ => rfl) _
-  · unfold cmdRewindable; split
-    · rfl
-    · simp only []; split
-      · exact be_of_ctl (by simp)
-      · rfl
-  · unfold cmdSet; simp only []; split <;> (try split) <;> rfl
-  · unfold cmdTrigger; simp only []; split <;> rfl
-  · unfold cmdWait; split <;> rfl
+  · unfold cmdOpenRun; frame_be
+  · unfold cmdCloseRun; frame_be
+  · unfold cmdCreate; frame_be
+  · unfold cmdRead; frame_be
+  · unfold cmdSave; frame_be
+  · unfold cmdDrop; frame_be
+  · unfold cmdCheckpoint; frame_be
+  · unfold cmdClearCheckpoint; frame_be
+  · unfold cmdRewindable; frame_be
+  · unfold cmdSet; frame_be
+  · unfold cmdTrigger; frame_be
+  · unfold cmdWait; frame_be
   · rfl
-  · unfold cmdStage; simp only []; split
-    · rfl
-    · split <;> (try split) <;> exact be_of_ctl (by simp)
-  · unfold cmdStage; simp only []; split
-    · rfl
-    · split <;> (try split) <;> exact be_of_ctl (by simp)
-  · unfold cmdMonitor; split
-    · rfl
-    · split
-      · rfl
-      · exact be_of_ctl (by simp)
-  · unfold cmdUnmonitor; split
-    · rfl
-    · split
-      · rfl
-      · exact be_of_ctl (by simp)
+  · unfold cmdStage; frame_be
+  · unfold cmdStage; frame_be
+  · unfold cmdMonitor; frame_be
+  · unfold cmdUnmonitor; frame_be
   · rfl
   · split
     · rename_i s' h; exact requestPause_be h
     · rfl
-  · unfold cmdStartSuspender; split
-    · rfl
-    · simp only []
-      show (rewindPlan _).2.blockingEvent = _
-      rw [be_of_ctl (ctl_rewindPlan _), be_of_ctl (ctl_pauseHooks _), be_of_ctl (ctl_stopMovables _)]
-      exact forBundlers_be _ (fun s b => ctl_recordInterruption s b _) _
-  · unfold cmdResumeFromSuspender
-    simp only []
-    rw [be_of_ctl (ctl_resumeHooks _)]
-    exact forBundlers_be _ (fun s b => ctl_restoreMonitors s b) _
-  · unfold cmdWaitFor; simp only []; split <;> (try split) <;> rfl
+  · unfold cmdStartSuspender; frame_be
+  · unfold cmdResumeFromSuspender; frame_be
+  · unfold cmdWaitFor; frame_be
   · rfl
+
+
+theorem fin_be (s : EState) (r : Resp) : (fin s r).blockingEvent = s.blockingEvent := by
+  unfold fin; split <;> rfl
+
+theorem leaveLoop_be (s : EState) (e : Exc) : (leaveLoop s e).blockingEvent = s.blockingEvent := by
+  unfold leaveLoop; simp only []; split <;> rfl
+
+theorem noteMsg_be (s : EState) (m : Msg) : (noteMsg s m).blockingEvent = s.blockingEvent := by
+  unfold noteMsg; frame_be
+
+theorem takeResp_be (s : EState) (r : Resp) (rs : List Resp) : (takeResp s r rs).blockingEvent = s.blockingEvent := by
+  unfold takeResp; frame_be
+
+theorem logYield_be (s : EState) (g : Gen) (i : Inp) : (logYield s g i).blockingEvent = s.blockingEvent := by
+  unfold logYield; frame_be
+
+/-- a block result that did not set the blocking event -/
+def Flow.NoBE : Flow → Prop
+  | .loopTop s => s.blockingEvent = false
+  | .stop s => s.blockingEvent = false
+
+theorem popPlan_nobe (s : EState) (how : Option Exc) (h : s.blockingEvent = false) : (popPlan s how).NoBE := by
+  unfold popPlan; simp only []
+  split
+  · simp only [Flow.NoBE, leaveLoop_be]; exact h
+  · split <;> exact h
+
+theorem afterCommand_nobe (m : Msg) (p : EState × CmdOut) (h : p.1.blockingEvent = false) : (afterCommand m p).NoBE := by
+  obtain ⟨s, o⟩ := p
+  cases o <;> simp only [afterCommand, Flow.NoBE, fin_be] <;> exact h
+
+theorem processMsg_nobe (s : EState) (m : Msg) (h : s.blockingEvent = false) : (processMsg s m).NoBE := by
+  unfold processMsg
+  simp only []
+  split
+  · simp only [Flow.NoBE, fin_be, noteMsg_be]; exact h
+  · apply afterCommand_nobe
+    rw [runCommand_be, noteMsg_be]; exact h
+
+theorem afterResume_nobe (s : EState) (gs : List Gen) (t : Option Exc) (r : Out × Gen)
+    (h : s.blockingEvent = false) : (afterResume s gs t r).NoBE := by
+  obtain ⟨o, g'⟩ := r
+  cases o with
+  | yld m => exact processMsg_nobe _ m h
+  | ret => simp only [afterResume]; split <;> exact popPlan_nobe _ _ h
+  | raise e =>
+    simp only [afterResume]
+    split
+    · exact popPlan_nobe _ _ h
+    · simp only [Flow.NoBE, leaveLoop_be, fin_be]; exact h
+
+theorem afterSleep_nobe (s : EState) (h : s.blockingEvent = false) : (afterSleep s).NoBE := by
+  unfold afterSleep
+  split
+  · simp only []
+    apply afterResume_nobe
+    rw [logYield_be, takeResp_be]; exact h
+  · simp only [Flow.NoBE, leaveLoop_be]; exact h
+
+theorem hCancel_nobe (s : EState) (r : Resp) (h : s.blockingEvent = false) : (hCancel s r).NoBE := by
+  unfold hCancel
+  repeat' split
+  all_goals simp only [Flow.NoBE, fin_be, leaveLoop_be]
+  all_goals exact h
+
+/-- what a call may look like when it returns to the caller -/
+def RetOK (s : EState) : Prop :=
+  s.blockingEvent = true →
+    (s.pc = .pausedWait ∧ s.state = .paused) ∨ (s.pc = .finished ∧ (s.state = .idle ∨ s.cleanupExc.isSome))
+
+def Flow.Ok : Flow → Prop
+  | .loopTop s => s.blockingEvent = false
+  | .stop s => RetOK s ∧ (s.pc = .finished → s.blockingEvent = false)
+
+theorem Flow.ok_of_nobe {f : Flow} (h : f.NoBE) : f.Ok := by
+  cases f with
+  | loopTop s => exact h
+  | stop s =>
+    have h' : s.blockingEvent = false := h
+    refine ⟨?_, fun _ => h'⟩
+    intro hb; rw [h'] at hb; cases hb
+
+theorem pauseBlock_ok (s : EState) (h : s.blockingEvent = false) : (pauseBlock s).Ok := by
+  unfold pauseBlock
+  simp only []
+  split
+  · rename_i e he
+    apply Flow.ok_of_nobe
+    simp only [Flow.NoBE, leaveLoop_be, be_pauseHooks, be_stopMovables, be_forBundlers_suspend]; exact h
+  · rename_i s' hs
+    have hst : s'.state = .paused := setState_state hs
+    refine ⟨fun _ => Or.inl ⟨rfl, hst⟩, ?_⟩
+    intro hpc; cases hpc
+
+theorem loopTop_ok (s : EState) (h : s.blockingEvent = false) : (loopTop s).Ok := by
+  unfold loopTop
+  split
+  · split
+    · rename_i s' hs; simp only [Flow.Ok]; rw [setState_be hs]; exact h
+    · apply Flow.ok_of_nobe; simp only [Flow.NoBE, leaveLoop_be]; exact h
+  · simp only []
+    split
+    · apply Flow.ok_of_nobe; simp only [Flow.NoBE, leaveLoop_be]; exact h
+    · rename_i s' hs
+      have hs' : s'.blockingEvent = false := by
+        split at hs
+        · rw [setState_be hs]; exact h
+        · cases hs; exact h
+      split
+      · exact pauseBlock_ok s' hs'
+      · split
+        · apply Flow.ok_of_nobe; exact hs'
+        · exact Flow.ok_of_nobe (afterSleep_nobe _ hs')
+
+theorem cleanupBody_ctl (s : EState) : ctl (cleanupBody s) = ctl s := by
+  unfold cleanupBody
+  simp only []
+  have hclose : ∀ (s : EState) (g : Gen), ctl (closeGen s g) = ctl s := by
+    intro s g; unfold closeGen; split <;> rfl
+  rw [ctl_foldl _ hclose]
+  have e1 : ∀ (s : EState) (l : List (String × Bundler)), ctl { s with bundlers := l } = ctl s := fun _ _ => rfl
+  have e2 : ∀ (s : EState) (l : List String), ctl { s with staged := l } = ctl s := fun _ _ => rfl
+  have e3 : ∀ (s : EState), ctl { s with pardon := true } = ctl s := fun _ => rfl
+  rw [e1]
+  have step4 : ∀ (s : EState) (r : String), ctl (if Src.finallyClosesRuns = true then
+      forBundlers s (fun s b => if b.runOpen = true then closeRunDoc s b s.exitStatus.name r else (s, b)) else s) = ctl s := by
+    intro s r; split
+    · apply ctl_forBundlers; intro s b; split
+      · simp
+      · rfl
+    · rfl
+  rw [step4, e2]
+  have step3 : ∀ (s : EState), ctl (if Src.finallyUnstages = true then
+      s.staged.foldl (fun s n => let (_, s) := nextMode s n "unstage"; s.logCall { dev := n, op := "unstage" }) s else s) = ctl s := by
+    intro s; split
+    · apply ctl_foldl; intro s n; rfl
+    · rfl
+  rw [step3]
+  have step2 : ∀ (s : EState), ctl (if Src.finallyClearsMonitors = true then forBundlers s clearMonitors else s) = ctl s := by
+    intro s; split
+    · exact ctl_forBundlers _ ctl_clearMonitors _
+    · rfl
+  rw [step2]
+  have step1 : ∀ (s : EState), ctl (if Src.finallyStopsMovables = true then stopMovables s else s) = ctl s := by
+    intro s; split <;> simp
+  rw [step1, e3]
+
+theorem cleanup_state (s : EState) : (cleanup s).state = .idle ∨ (cleanup s).cleanupExc.isSome := by
+  unfold cleanup
+  simp only []
+  split
+  · rename_i s' hs; exact Or.inl (setState_state hs)
+  · exact Or.inr rfl
+
+theorem finishTask_retok (s : EState) : RetOK (finishTask (cleanup s)) := by
+  intro _
+  refine Or.inr ⟨rfl, ?_⟩
+  exact cleanup_state s
+
+theorem runLoop_retok (n : Nat) (s : EState) (h : s.blockingEvent = false) : RetOK (runLoop n s) := by
+  induction n generalizing s with
+  | zero => intro hb; simp [runLoop, h] at hb
+  | succ n ih =>
+    unfold runLoop
+    have := loopTop_ok s h
+    split
+    · rename_i s' heq
+      rw [heq] at this
+      split
+      · exact finishTask_retok s'
+      · exact this.1
+    · rename_i s' heq
+      rw [heq] at this
+      exact ih s' this
+
+theorem contFlow_retok (n : Nat) (f : Flow) (h : f.Ok) : RetOK (contFlow n f) := by
+  cases f with
+  | loopTop s => exact runLoop_retok n s h
+  | stop s =>
+    simp only [contFlow]
+    split
+    · exact finishTask_retok s
+    · exact h.1
+
+/-- Whenever `_run` is given the CPU while the caller is blocked and it sets the blocking event, the
+    engine is `paused` at its pause point, or the task has ended with state `idle` (or the final
+    assignment of `idle` was refused and that exception is the task's result). -/
+theorem advanceAt_retok (n : Nat) (c : Bool) (s0 : EState) (hb : s0.blockingEvent = false) :
+    RetOK (advanceAt n c s0) := by
+  unfold advanceAt
+  split
+  · intro hb'; rw [hb] at hb'; cases hb'
+  · intro hb'; rw [hb] at hb'; cases hb'
+  · split
+    · intro hb'; rw [hb] at hb'; cases hb'
+    · split
+      · rename_i s' hs
+        apply runLoop_retok
+        rw [setState_be hs]; exact hb
+      · apply contFlow_retok
+        apply Flow.ok_of_nobe
+        simp only [Flow.NoBE, leaveLoop_be]; exact hb
+  · split
+    · exact contFlow_retok _ _ (Flow.ok_of_nobe (hCancel_nobe _ _ hb))
+    · exact contFlow_retok _ _ (Flow.ok_of_nobe (afterSleep_nobe _ hb))
+  · split
+    · exact contFlow_retok _ _ (Flow.ok_of_nobe (hCancel_nobe _ _ hb))
+    · apply runLoop_retok; rw [fin_be]; exact hb
+  · split
+    · exact contFlow_retok _ _ (Flow.ok_of_nobe (hCancel_nobe _ _ hb))
+    · split
+      · rename_i s' hs
+        apply runLoop_retok
+        rw [fin_be, requestPause_be hs]; exact hb
+      · apply runLoop_retok; rw [fin_be]; exact hb
+  · split
+    · exact contFlow_retok _ _ (Flow.ok_of_nobe (hCancel_nobe _ _ hb))
+    · simp only []
+      split
+      · apply runLoop_retok; rw [fin_be]; exact hb
+      · split
+        · apply runLoop_retok; rw [fin_be]; exact hb
+        · intro hb'; rw [hb] at hb'; cases hb'
+  · split
+    · exact contFlow_retok _ _ (Flow.ok_of_nobe (hCancel_nobe _ _ hb))
+    · split
+      · apply runLoop_retok; rw [fin_be]; exact hb
+      · intro hb'; rw [hb] at hb'; cases hb'
+  · split
+    · intro hb'; rw [hb] at hb'; cases hb'
+    · split
+      · apply contFlow_retok
+        apply Flow.ok_of_nobe
+        simp only [Flow.NoBE, leaveLoop_be]; exact hb
+      · simp only []
+        have hr : (forBundlers s0 restoreMonitors).blockingEvent = false := by rw [be_forBundlers_restore]; exact hb
+        split
+        · apply contFlow_retok
+          apply Flow.ok_of_nobe
+          simp only [Flow.NoBE, leaveLoop_be]; exact hr
+        · rename_i s' hs
+          have hs' : s'.blockingEvent = false := by
+            split at hs
+            · rw [setState_be hs]; exact hr
+            · cases hs; exact hr
+          split
+          · intro hb'; simp only [] at hb'; rw [hs'] at hb'; cases hb'
+          · exact contFlow_retok _ _ (Flow.ok_of_nobe (afterSleep_nobe _ hs'))
+  · exact finishTask_retok _
+
+theorem advance_retok (n : Nat) (s : EState) (h : s.blockingEvent = false) : RetOK (advance n s) :=
+  advanceAt_retok n _ _ h
 
 end BlueskyVerif.Engine
